@@ -140,6 +140,58 @@ def slice_stats(eng, orient="rows", nvals=3, none_at=(), nrows=2, subtotal=True,
     return obs
 
 
+def margin_median(eng, orient="rows", nvals=3, none_at=(), nrows=2, integer=True):
+    """rows/columns_scale_median_margin: median of the opposing dimension's numeric values, each repeated as many times as the
+    integer part of its weighted margin over ALL base vectors; None when no category carries a value or nobody is counted"""
+    vals = _values(eng, nvals, none_at)
+    if orient == "rows":
+        specs = [("cat", "a", nrows, {"missing_at": (1,)}), Vn("b", nvals, (0,), vals)]
+    else:
+        specs = [Vn("a", nvals, (0,), vals), ("cat", "b", nrows, {"missing_at": (1,)})]
+    w = CellWorld(eng, specs)
+    if integer:
+        for n, idx in enumerate(np.ndindex(w.shape)):
+            w.W[idx] = eng.intcount("k%d" % n)
+    part = Cube(w.response()).partitions[0]
+    vi_vec, vi_val = (0, 1) if orient == "rows" else (1, 0)
+    ws = []
+    for val_k in w.valid(vi_val):
+        x = None
+        for vec_k in w.valid(vi_vec):
+            c = w.W[(vec_k, val_k) if orient == "rows" else (val_k, vec_k)]
+            x = c if x is None else x + c
+        if eng.symbolic:
+            x = Q.lift(x).to_int64()
+        else:
+            x = float(int(x))
+        ws.append(x)
+    got = getattr(part, ("rows" if orient == "rows" else "columns") + "_scale_median_margin")
+    valued = [(wt, v) for wt, v in zip(ws, vals) if v is not None]
+    tot = None
+    for wt, v in valued:
+        tot = wt if tot is None else tot + wt
+    if got is None:
+        cond = (Q.lift(tot) == 0) if eng.symbolic else bool(tot == 0)
+        return [Obs("scale_median_margin None iff nobody is counted", C.to_array([cond]), kind="holds")]
+    want = _median_int(eng, ws, vals)
+    return [Obs("scale_median_margin", C.to_array([got]), C.to_array([want]))]
+
+
+def strand_median(eng, nvals=3, none_at=(), integer=True):
+    """_Strand.scale_median: median of the numeric values, each repeated by the integer part of its weighted count"""
+    vals = _values(eng, nvals, none_at)
+    w = CellWorld(eng, [Vn("a", nvals, (1,), vals)])
+    if integer:
+        for n, idx in enumerate(np.ndindex(w.shape)):
+            w.W[idx] = eng.intcount("k%d" % n)
+    part = Cube(w.response()).partitions[0]
+    ws = []
+    for k in w.valid(0):
+        x = w.W[(k,)]
+        ws.append(Q.lift(x).to_int64() if eng.symbolic else float(int(x)))
+    return [Obs("scale_median", C.to_array([part.scale_median]), C.to_array([_median_int(eng, ws, vals)]))]
+
+
 def no_values(eng):
     w = CellWorld(eng, [("cat", "a", 2, {"missing_at": (1,)}), ("cat", "b", 2, {"missing_at": (0,)})])
     part = Cube(w.response()).partitions[0]
@@ -194,9 +246,13 @@ def specs(tier):
         add("%s mean/sd/se one category without value" % orient, "slice_stats", dict(orient=orient, none_at=[1]))
         add("%s median 3 values" % orient, "slice_stats", dict(orient=orient, integer=True, median=True, subtotal=False, nrows=2), max_paths=2500)
         add("%s median one category without value" % orient, "slice_stats", dict(orient=orient, none_at=[0], integer=True, median=True, subtotal=True), max_paths=2500)
+        add("%s median margin, integer counts" % orient, "margin_median", dict(orient=orient), max_paths=2500)
+        add("%s median margin, real weights, one category without value" % orient, "margin_median", dict(orient=orient, none_at=[1], integer=False), max_paths=2500)
     add("no numeric values", "no_values", dict())
     add("strand 3 values", "strand_stats", dict())
     add("strand one without value", "strand_stats", dict(none_at=[2]))
+    add("strand median 3 values", "strand_median", dict(), max_paths=2500)
+    add("strand median real weights, one category without value", "strand_median", dict(none_at=[2], integer=False), max_paths=2500)
     add("strand no values", "strand_no_values", dict())
     if tier == "thorough":
         for orient in ("rows", "cols"):
